@@ -353,6 +353,54 @@ Example C04_example_crash_before_delete :
   out_outcome o = Raised ECrash /\ out_checked o = true /\ out_fs o (PFile Orig FBin) = Complete.
 Proof. vm_compute. repeat split. Qed.
 
+(* ---- metadata markers and NP2Reconstructor ------------------------------------------------ *)
+(* already_processed (why a run is skipped as "already split") is a function of the markers in the
+   metadata of the file given: true exactly for a shank file (the <version>_shank key) — not for
+   SpikeGLX's own metadata, and not for the metadata NP2Reconstructor writes (original_meta=False
+   without the shank key). *)
+Theorem C04_already_processed_decision : forall kd n w fs r,
+  input_state kd n fs (r_target r) = Present ->
+  out_processed (run_once kd n w fs r) = marks_processed (marker_of fs (r_target r)) /\
+  (marks_processed MShank = true /\ marks_processed MRecon = false /\ marks_processed MPristine = false).
+Proof. intros kd n w fs r Hin. split; [exact (processed_decision kd n w fs r Hin) | auto]. Qed.
+Print Assumptions C04_already_processed_decision.
+
+(* A reconstructed original is convertible again: from ANY directory in which NP2Reconstructor can
+   run (every shank folder with complete ap data and metadata, the original gone, its leftover .meta
+   kept or removed), the file it recreates — plain or compressed — is a valid input that is not
+   taken for a split shank, and a forced run on it returns 1 with the complete valid output of
+   C04_forced_rerun_completes_np24.  (A genuine shank file is still refused: C04_split_input_noop
+   holds for every directory, in particular after a reconstruction.) *)
+Theorem C04_reconstructed_original_converts_again : forall n w' fs comp o,
+  recon_ok n fs = true ->
+  let fs1 := recon comp fs in
+  let t := if comp then TCbin else TBin in
+  let out := run_once NP24 n (S w') fs1 (mkRun t o true None None None) in
+  input_state NP24 n fs1 t = Present /\
+  out_processed out = false /\ out_outcome out = Status 1 /\ out_checked out = o_post o /\
+  (forall k, (k < n)%nat ->
+     out_fs out (PDir k) = Complete /\
+     out_fs out (PFile (Shank k Ap) FMeta) = Complete /\ out_fs out (PFile (Shank k Lf) FMeta) = Complete /\
+     out_ok (o_comp o) (out_fs out) (Shank k Ap) /\ out_ok (o_comp o) (out_fs out) (Shank k Lf)) /\
+  out_fs out (PFile Orig (target_form t)) = (if o_post o && o_del o then Absent else Complete).
+Proof.
+  intros n w' fs comp o H fs1 t out. split; [exact (recon_input n comp fs H)|].
+  exact (reconstructed_converts_again n w' fs comp o H).
+Qed.
+Print Assumptions C04_reconstructed_original_converts_again.
+
+(* split with deletion -> the user removes the leftover .meta -> reconstruct -> convert again
+   (forced) -> a shank file of the new split is refused *)
+Example C04_example_reconstruct_history :
+  let h := [HRun (mkRun TBin (mkO true true false) false None None None); HDropMeta; HRecon false;
+            HRun (mkRun TBin (mkO true false true) true None None None);
+            HRun (mkRun (TShank 1) (mkO true true true) true None None None)] in
+  map out_outcome (ops_run NP24 2 2 (init_fs false) h) = [Status 1; Status 7; Status 1; Status 1; Status 0] /\
+  map out_processed (ops_run NP24 2 2 (init_fs false) h) = [false; false; false; false; true] /\
+  recon_ok 2 (out_fs (nth 1 (ops_run NP24 2 2 (init_fs false) h) (noop (init_fs false) (Status 0) false))) = true /\
+  out_fs (nth 2 (ops_run NP24 2 2 (init_fs false) h) (noop (init_fs false) (Status 0) false)) PMark = Complete.
+Proof. vm_compute. repeat split. Qed.
+
 (* ---- the hypotheses of the theorems above are satisfiable on non-trivial inputs ---- *)
 (* rerun_noop / complete_run_then_rerun_noop: a complete run, then a plain re-run *)
 Example C04_example_rerun :
